@@ -171,11 +171,100 @@ def run_shard(cfg):
                         "n_compatible": len(exp_row)})
     acc.extra["exhaustive"] = True
     acc.extra["universe_descriptors"] = N if cfg["k"] == 0 else 0
+    _objects_part(acc, cfg)
     return acc
+
+
+def _objects_part(acc, cfg):
+    """Weights never influence compatibility - also not list weights with zeros at the partner's position, and not
+    the position (descriptor number) a descriptor has inside its stochastic object.  Generated stochastic objects
+    with 2-7 single-descriptor tokens; every ordered pair of their descriptors (and terminals) against the rule."""
+    from hypothesis import strategies as st
+    from gbigsmiles import BondDescriptor, Stochastic
+    from ..hyp import drive
+
+    n_cases = 400 if cfg["tier"] == "thorough" else 60
+
+    @st.composite
+    def obj(draw):
+        n = draw(st.integers(2, 7))
+        specs = []
+        for k in range(n):
+            sym = draw(st.sampled_from("$<>"))
+            did = draw(st.sampled_from([None, None, 1, 2]))
+            pre = draw(st.sampled_from(["", "", "=", "#"]))
+            form = draw(st.sampled_from(["none", "scalar", "list", "list", "zero"]))
+            if form == "list":
+                lst = [draw(st.sampled_from([0, 0, 1, 2, 0.5])) for _ in range(n)]
+                if sum(lst) == 0:
+                    lst[draw(st.integers(0, n - 1))] = 1
+                w = "|" + " ".join(str(x) for x in lst) + "|"
+            else:
+                w = {"none": "", "scalar": "|" + str(draw(st.sampled_from([2, 0.5, 7.25]))) + "|", "zero": "|0|"}[form]
+            specs.append((sym, did, pre, w))
+        lt = draw(st.sampled_from(["", "$", "<", ">"]))
+        rt = draw(st.sampled_from(["", "$", "<", ">"]))
+        return specs, lt, rt
+
+    def t(sym, did, pre, w):
+        return (sym, did, pre, "none", "")
+
+    def run(x):
+        specs, lt, rt = x
+        toks = ", ".join(f"C{pre}[{sym}{'' if did is None else did}{w}]" for sym, did, pre, w in specs)
+        text = "{[" + lt + "] " + toks + " [" + rt + "]}"
+        try:
+            so = Stochastic(text, 0)
+            objs = list(so.bond_descriptors) + [so.left_terminal, so.right_terminal]
+            # the same descriptors through the constructor with their position in the object
+            ctor = [BondDescriptor(f"[{sym}{'' if did is None else did}{w}]", k, pre, 0) for k, (sym, did, pre, w) in enumerate(specs)]
+        except Exception as exc:  # noqa: BLE001
+            acc.case(("obj", text))
+            acc.violation("build", f"cannot parse {text!r}: {exc!r}", {"text": text}, {"kind": "construct_object"})
+            return
+        ref = [t(*sp) for sp in specs] + [(lt, None, "", "none", ""), (rt, None, "", "none", "")]
+        if len(objs) != len(ref):
+            acc.violation("build", f"{text!r}: {len(objs)} descriptors parsed, {len(ref)} written", {"text": text}, {"kind": "construct_object"})
+            return
+        for route, pool in (("object", objs), ("ctor_numbered", ctor)):
+            for i, a in enumerate(pool):
+                for j, b in enumerate(pool):
+                    exp = truth(ref[i], ref[j])
+                    got = bool(a.is_compatible(b))
+                    acc.case((route, text, i, j) if boundary(ref[i], ref[j]) else None)
+                    if got != exp:
+                        acc.violation("truth_table_weighted", f"[{route}] in {text!r}: descriptor {i} ~ descriptor {j}: implementation {got}, rule {exp}",
+                                      {"text": text, "i": i, "j": j, "route": route}, {"kind": "false_positive" if got else "false_negative"},
+                                      size=len(text))
+        if acc.evaluations % 7 == 0:
+            acc.sample({"object": text})
+
+    drive(obj(), run, max(4, n_cases // cfg["n"]), cfg["seed"])
 
 
 def replay(case, rec):
     acc = Acc()
+    if "text" in case:
+        from gbigsmiles import Stochastic
+        import re
+        so = Stochastic(case["text"], 0)
+        objs = list(so.bond_descriptors) + [so.left_terminal, so.right_terminal]
+        a, b = objs[case["i"]], objs[case["j"]]
+
+        def spec(o):
+            bt = str(o.bond_type).split(".")[-1]
+            pre = {"SINGLE": "", "DOUBLE": "=", "TRIPLE": "#", "ONEANDAHALF": ":"}.get(bt, "")
+            return (o.descriptor, None if o.descriptor_id == "" else int(o.descriptor_id), pre, "none", "")
+        # the rule on symbol / id / order as *written* (orders are re-read from the text to stay independent)
+        toks = re.findall(r"C([=#]?)\[([$<>])(\d*)", case["text"])
+        lt, rt = re.match(r"\{\[([$<>]?)\]", case["text"]).group(1), re.search(r"\[([$<>]?)\]\}$", case["text"]).group(1)
+        ref = [(s_, int(d) if d else None, p_, "none", "") for p_, s_, d in toks] + [(lt, None, "", "none", ""), (rt, None, "", "none", "")]
+        acc.case(("replay",))
+        got = bool(a.is_compatible(b))
+        exp = truth(ref[case["i"]], ref[case["j"]])
+        if got != exp:
+            acc.violation("truth_table_weighted", f"in {case['text']!r}: descriptor {case['i']} ~ {case['j']}: implementation {got}, rule {exp}", case, {})
+        return acc
     a, b = tuple(case["a"]), tuple(case.get("b", case["a"]))
     a = (a[0], a[1], a[2], a[3], a[4]); b = (b[0], b[1], b[2], b[3], b[4])
     A, B = build([a, b])
